@@ -11,8 +11,9 @@ use netflow_parser::NetflowPacket;
 use std::time::Instant;
 
 /// ids probed when absent: the alphabet's ids, one never defined, and ids that collide with a defined one under a
-/// truncated / masked lookup (id + 256, id with the top bit set)
-const IDS: [u16; 6] = [256, 257, 300, 512, 513, 33024];
+/// truncated / masked lookup (id + 256, id with the top bit set), and two ids below 256 (a set with such an id is not a
+/// template set either: it references a template nobody can have defined)
+const IDS: [u16; 8] = [256, 257, 300, 512, 513, 33024, 255, 4];
 
 fn has_records_for(res: &[NetflowPacket], proto: u16, id: u16) -> bool {
     res.iter().any(|e| match e {
@@ -24,7 +25,14 @@ fn has_records_for(res: &[NetflowPacket], proto: u16, id: u16) -> bool {
 
 /// probes for one (instance, protocol, absent id) in one state
 fn probe_one(m: &HistModel, st: &St, i: usize, proto: u16, id: u16, other_id: u16, out: &mut Vec<Issue>) {
-    let body = body12(id as usize % 5 + 40);
+    // the data bytes are at the same time a well-formed template record (id 300.., two fields): a parser that mistakes
+    // the set for a template set changes its caches
+    let mut body: Vec<u8> = vec![];
+    p16(&mut body, 300 + id % 5);
+    p16(&mut body, 2);
+    for x in [1u16, 4, 2, 4] {
+        p16(&mut body, x);
+    }
     let pn = if proto == 9 { "v9" } else { "ipfix" };
     // the other id counts as known only if data for it can actually be decoded (a V9 definition without fields cannot)
     let decodable = |t: Option<&RefTpl>| match t {
